@@ -714,7 +714,7 @@ func Boot(p *Persist, armAt int) (n *PNode, crashed *CrashSignal, err error) {
 			return n, nil, err
 		}
 		if os.Getenv("VERIF_DEBUG_WAL") != "" {
-			DumpWAL(p.walFile(), "between the two States of one boot (after the start-up repair)")
+			DumpWAL(p.walFile(), fmt.Sprintf("between the two States of one boot (inc %d, keyless=%v, repaired=%v, store=%d, log=%v)", p.Inc, !withSigner, n.Repaired, n.BlockStore.Height(), n.Errors()))
 		}
 		n.started = false // an injected crash inside the second Start() leaves a State whose routine never ran
 		if err := mkCS(st2, true); err != nil {
